@@ -499,6 +499,14 @@ func analyzeDirect(e *engine, p *tak.Position) ([]tak.Move, int64, ai.Stats) {
 
 func genC16(c *Ctx) {
 	r := c.R
+	if c.Thorough() && c.Shard == 0 {
+		// data-race clause: supporting evidence only (see raceCheck)
+		res, detail := raceCheck()
+		c.Count("race-detector(supporting-evidence-only): " + detail)
+		if res != "ok" {
+			c.Emit("racecheck")
+		}
+	}
 	bud := newBudget(c, 2400000, 160000000)
 	for k := 0; !bud.spent() && k < 20000; k++ {
 		size := pickSize(r)
